@@ -71,6 +71,7 @@ class Walker:
     def __init__(self, F):
         self.F = F
         self.zcs_types = set()       # ADT paths with a ZeroCopySend impl
+        self.zcs_impl_selfs = {}     # ADT path -> list of impl self types (structured)
         self.zcs_prims = set()
         # traits sealed to primitive types: every impl's self type is a primitive
         self.plain_traits = set()
@@ -87,6 +88,7 @@ class Walker:
                 s = i['self']
                 if s[0] == 'adt':
                     self.zcs_types.add(s[1])
+                    self.zcs_impl_selfs.setdefault(s[1], []).append(s)
                 elif s[0] == 'prim':
                     self.zcs_prims.add(s[1])
 
@@ -116,6 +118,27 @@ class Walker:
             if m and m.group(1) == pname and self.implies_zcs(m.group(2)):
                 return True
         return False
+
+    def impl_matches(self, impl_self, ty):
+        """Does `impl ZeroCopySend for impl_self` cover the concrete type `ty`?  Type parameters of the impl match anything; concrete ADT
+        arguments (e.g. the pointer family GenericRelocatablePointer vs GenericOwningPointer) must be the same ADT.  An ADT with an impl for ONE
+        instantiation says nothing about another one: that one is walked structurally."""
+        if impl_self[0] == 'param':
+            return True
+        if impl_self[0] != ty[0]:
+            return ty[0] in ('param', 'alias')   # unknown instantiation: decided by the enclosing impl's bounds
+        if impl_self[0] == 'adt':
+            if impl_self[1] != ty[1]:
+                return False
+            for a, b in zip(impl_self[2], ty[2]):
+                if a[0] == 'const' or b[0] == 'const':
+                    continue
+                if not self.impl_matches(a, b):
+                    return False
+            return True
+        if impl_self[0] in ('array', 'slice'):
+            return self.impl_matches(impl_self[1], ty[1])
+        return True
 
     def resolve_alias(self, ty, impl):
         """<Self as Trait>::Name<args..> -> the associated type of the matching impl (Self must be a concrete ADT)."""
@@ -187,7 +210,7 @@ class Walker:
                     if a[0] != 'const':
                         self.walk(a, impl, path, out, depth + 1)
                 return
-            if p in self.zcs_types:
+            if p in self.zcs_types and any(self.impl_matches(si, ty) for si in self.zcs_impl_selfs.get(p, [])):
                 # walked as its own root; its type arguments must be fine too (bounds are the callee impl's business)
                 if (p, '*') in EXCEPTIONS:
                     return      # whole-type exception row (its own root reports the obligation)
